@@ -11,5 +11,5 @@ OkLine(r) ==
        /\ (r.dev = "none" => r.recv_ok /\ r.opens /\ r.rexport_eq /\ r.opens_all)
        /\ (r.dev # "none" => ~r.opens /\ (r.recv_ok => ~r.rexport_eq))
 INSTANCE LinesTrace WITH Ok <- OkLine
-ASSUME TLCSet(1, 0) /\ TLCSet(2, {})
+ASSUME TLCSet(1, 0) /\ TLCSet(2, {}) /\ TLCSet(3, ndJsonDeserialize("trace.ndjson"))
 ====
